@@ -1054,4 +1054,72 @@ theorem groupSections_pre_header_nl2 (hd : Header) (t : Bytes) (tl : List Event)
       simp only [List.cons_append, groupSections]
       exact ⟨by rw [ih1], ih2⟩
 
+/-! ### any number of headers -/
+
+/-- `b` is `a` with newline events inserted right after some of its section headers (each time the
+text after the header does not itself start with a newline) -/
+inductive InsAfterHeaders (rend : List Event → Bytes) : List Event → List Event → Prop
+  | refl (evs : List Event) : InsAfterHeaders rend evs evs
+  | step {evs pre post : List Event} {hr : Header} {t : Bytes} :
+      InsAfterHeaders rend evs (pre ++ .header hr :: post) → NL t → takeNewlines1 (rend post) = none →
+      InsAfterHeaders rend evs (pre ++ .header hr :: .newline t :: post)
+
+theorem bomLen_of_self_render {x : Bytes} {evs : List Event} (hp : parseRaw x = some evs) (hx : x = renderRaw evs) :
+    bomLen x = 0 := by
+  have hok := parseRaw_ok hp
+  rw [← hx] at hok
+  cases x with
+  | nil => rfl
+  | cons c r =>
+    have := congrArg List.length hok
+    simp only [List.length_drop, List.length_cons] at this
+    omega
+
+theorem renderRaw_ins (pre post : List Event) (hr : Header) (t : Bytes) :
+    renderRaw (pre ++ .header hr :: .newline t :: post) = renderRaw pre ++ (hr.writeWith id ++ (t ++ renderRaw post)) := by
+  simp [renderRaw, List.flatMap_append, Event.writeRaw, Event.writeWith]
+
+/-- the text written for events with newlines inserted after any number of headers parses back to
+exactly those events -/
+theorem parseRaw_ins_many {a : Bytes} {evs evs' : List Event} (hp : parseRaw a = some evs) (ha : a = renderRaw evs)
+    (h : InsAfterHeaders renderRaw evs evs') : parseRaw (renderRaw evs') = some evs' := by
+  induction h with
+  | refl => rw [← ha]; exact hp
+  | step _ ht hY ih =>
+    have hb := bomLen_of_self_render ih rfl
+    have := parseRaw_insK ht (by simpa [renderRaw, List.flatMap_append, Event.writeRaw, Event.writeWith] using ih)
+      (by simpa [renderRaw, List.flatMap_append, Event.writeRaw, Event.writeWith] using hb) hY
+    rw [renderRaw_ins]
+    exact this
+
+theorem canon_newline (t : Bytes) : (Event.newline t).canon = true := rfl
+
+/-- the same for a loaded file and its (real) events: every list reachable from the file's events
+by such insertions is written as a text that parses back to it, with the same headers and entries -/
+theorem fileFromBytes_ins_many {x : Bytes} {revs : List Event} (hp : parseRaw x = some revs) (hx : x = renderRaw revs)
+    (hcan : ∀ e ∈ revs, e.canon = true) {E' : List Event}
+    (h : InsAfterHeaders render (revs.map Event.toReal) E') :
+    ∃ R', R'.map Event.toReal = E' ∧ (∀ e ∈ R', e.canon = true) ∧ InsAfterHeaders renderRaw revs R' ∧
+      (fileOfEvents E').entries = (fileOfEvents (revs.map Event.toReal)).entries ∧
+      (fileOfEvents E').headers = (fileOfEvents (revs.map Event.toReal)).headers := by
+  induction h with
+  | refl => exact ⟨revs, rfl, hcan, .refl _, rfl, rfl⟩
+  | @step pre post hd t _ ht hY ih =>
+    obtain ⟨R, hR, hRcan, hRins, he, hh⟩ := ih
+    obtain ⟨rpre, hraw, rpost, rfl, hrpre, hreal, hrpost⟩ := map_toReal_split hR
+    have hcpost : ∀ e ∈ rpost, e.canon = true := fun e he => hRcan e (by simp [he])
+    have hrend : render post = renderRaw rpost := by rw [← hrpost]; exact render_toReal_of_canon rpost hcpost
+    refine ⟨rpre ++ .header hraw :: .newline t :: rpost, ?_, ?_, ?_, ?_, ?_⟩
+    · simp [Event.toReal, hrpre, hreal, hrpost]
+    · intro e hmem
+      simp only [List.mem_append, List.mem_cons] at hmem
+      rcases hmem with hm | rfl | rfl | hm
+      · exact hRcan e (by simp [hm])
+      · exact hRcan _ (by simp)
+      · rfl
+      · exact hRcan e (by simp [hm])
+    · exact .step hRins ht (by rw [← hrend]; exact hY)
+    · rw [(fileOfEvents_pre_header_nl pre hd t post).1]; exact he
+    · rw [(fileOfEvents_pre_header_nl pre hd t post).2]; exact hh
+
 end GixModel.C26
